@@ -49,13 +49,18 @@ def gen(ctx):
 
 # ------------------------------------------------------------------ several instances alive at once
 def _valid_cfg(ctx, rng, profile):
-    while True:
+    last = None
+    for _ in range(40):
         cfg, hist = H.gen_case(ctx, rng, profile)
         try:
             H.make_decoder(cfg)
-        except Exception:  # noqa: BLE001
+        except Exception as e:  # noqa: BLE001
+            last = e
             continue
         return cfg, hist
+    # the generator produces an invalid configuration in <10% of the draws: 40 refusals in a row mean the
+    # constructor itself is broken (e.g. state leaking from earlier instances)
+    raise RuntimeError(f"NMEA2000Decoder could not be constructed from 40 generated configurations in a row: {last!r}")
 
 
 def multi_system(ctx, rng):
@@ -234,23 +239,65 @@ def c16_probe_oracle(cfg, hist, probe, others=()):
     return None
 
 
+def c16_neutral_oracle(cfg, hist, max_positions=3, focus=None):
+    """Inputs that were rejected with an error never change what is returned later: delete one raising call from
+    the history and compare everything returned after it.  (When the error came from the per-PGN decode function on
+    delivery of a fast-packet message, the completed record is legitimately kept: later calls on that same key are
+    not compared — C16_error_neutral names exactly this effect.)"""
+    def run(h):
+        d = H.make_decoder(cfg)
+        out = []
+        for pkt, win in h:
+            d.started_at = H.datetime.now() if win else H.datetime.now() - H.timedelta(hours=1)
+            try:
+                r = d.decode_tcp(pkt)
+                out.append(("ok", None if r is None else (r.PGN, r.id, r.source, r.destination,
+                                                          H.iso_tuple(r.source_iso_name), repr(r.fields))))
+            except Exception as e:  # noqa: BLE001
+                out.append(("err", type(e).__name__))
+        return out
+    try:
+        full = run(hist)
+    except Exception:  # noqa: BLE001
+        return None
+    pos = [i for i, o in enumerate(full) if o[0] == "err" and (focus is None or hist[i][0] == focus)]
+    pos.sort(key=lambda i: full[i][1] != "IndexError")
+    for i in pos[:max_positions]:
+        key_i = H.pkt_fields(hist[i][0])[:3]
+        rest = run(hist[:i] + hist[i + 1:])
+        for j in range(i + 1, len(hist)):
+            if full[i][1] != "IndexError" and H.pkt_fields(hist[j][0])[:3] == key_i:
+                continue
+            a, b = full[j], rest[j - 1]
+            a = a if a[0] == "ok" else ("ok", None)
+            b = b if b[0] == "ok" else ("ok", None)
+            if a != b:
+                return i, j, (f"call {i} (PGN {key_i[0]} from {key_i[1]}) is rejected with {full[i][1]}, yet call {j} "
+                              f"returns {a[1] and a[1][0]} with it and {b[1] and b[1][0]} without it in the history")
+    return None
+
+
 def c16_misc_oracles(ctx, rng):
     """determinism; constructor defaults and argument lists are never mutated; instances do not share containers"""
     Dec, Enc, _, _ = H._impl()
     out = []
-    cfg, hist = _valid_cfg(ctx, rng, "mixed")
-    a, b = H.make_decoder(cfg), H.make_decoder(cfg)
-    ra = [H.full_obs(a, p, w) for p, w in hist]
-    rb = [H.full_obs(b, p, w) for p, w in hist]
-    if ra != rb:
-        out.append({"key": "C16:nondeterministic", "what": "the same history on two new decoders gives different results",
-                    "kind": "c16-det", **H.case_json(cfg, hist)})
     args = {"exclude_pgns": [60928, "isoAddressClaim", 127250], "exclude_manufacturer_code": ["Garmin"]}
     snap = {k: list(v) for k, v in args.items()}
-    d1 = Dec(**args)
-    d2 = Dec()
-    defaults = Dec.__init__.__defaults__
     problems = []
+    try:
+        d1 = Dec(**args)
+        ints = [60928, 127250]
+        Dec(exclude_pgns=ints)
+        # give d1 a claim and a partial fast-packet message, then build a decoder with default arguments
+        d1.decode_tcp(H.mk_pkt(CLAIM, 5, 255, 6, (9 | (229 << 21) | (4 << 60) | (1 << 63)).to_bytes(8, "little")))
+        d1.decode_tcp(H.mk_pkt(126996, 5, 255, 6, bytes([0x20, 134, 1, 2, 3, 4, 5, 6])))
+        d2 = Dec()
+    except Exception as e:  # noqa: BLE001
+        return [{"key": "C16:aliasing:constructor-fails-after-earlier-instances", "kind": "c16-alias",
+                 "what": f"constructing decoders one after the other fails: {e!r}"}]
+    defaults = Dec.__init__.__defaults__
+    if ints != [60928, 127250]:
+        problems.append(f"constructor mutated its argument lists: [60928, 127250] -> {ints}")
     if {k: list(v) for k, v in args.items()} != snap:
         problems.append(f"constructor mutated its argument lists: {snap} -> {args}")
     if any(len(x) for x in defaults if hasattr(x, "__len__")):
@@ -267,6 +314,16 @@ def c16_misc_oracles(ctx, rng):
         problems.append("encoder sequence counters are shared between instances")
     for p in problems:
         out.append({"key": "C16:aliasing:" + p.split(":")[0][:40], "what": p, "kind": "c16-alias"})
+    try:
+        cfg, hist = _valid_cfg(ctx, rng, "mixed")
+        a, b = H.make_decoder(cfg), H.make_decoder(cfg)
+        ra = [H.full_obs(a, p, w) for p, w in hist]
+        rb = [H.full_obs(b, p, w) for p, w in hist]
+        if ra != rb:
+            out.append({"key": "C16:nondeterministic", "what": "the same history on two new decoders gives different results",
+                        "kind": "c16-det", **H.case_json(cfg, hist)})
+    except RuntimeError as e:
+        out.append({"key": "C16:aliasing:constructor-fails-after-earlier-instances", "kind": "c16-alias", "what": str(e)})
     return out
 
 
@@ -278,6 +335,8 @@ def search(ctx):
         if w["key"] not in seen:
             seen.add(w["key"])
             out.append(w)
+    if any(w["kind"] == "c16-alias" for w in out):
+        return out          # instances are not independent: the history oracles below would only repeat that
     cands = []
     for h in ctx.hints:
         for c in h.get("cases", []):
@@ -300,6 +359,14 @@ def search(ctx):
             A = H.make_decoder(cfg)
         except Exception:  # noqa: BLE001
             continue
+        r = c16_neutral_oracle(cfg, hist)
+        if r and "C16:rejected-input-changes-later-results" not in seen:
+            seen.add("C16:rejected-input-changes-later-results")
+            culprit = hist[r[0]][0]
+            hs = H.shrink(hist[:r[1] + 1], lambda t: c16_neutral_oracle(cfg, t, 4, culprit) is not None)
+            r = c16_neutral_oracle(cfg, hs, 50, culprit) or r
+            out.append({"key": "C16:rejected-input-changes-later-results", "what": r[2], "kind": "c16-neutral",
+                        **H.case_json(cfg, hs)})
         for pkt, win in hist:
             H.full_obs(A, pkt, win)
         srcs = sorted({H.pkt_src(p) for p, _ in hist}) or [1]
@@ -324,6 +391,11 @@ def replay(ctx, data):
         r = c16_probe_oracle(H.cfg_unjson(w["config"]), H.hist_unjson(w["history"]), H.hist_unjson(w["probe"]))
         print("expected: the probe returns the same after the history as on a new decoder")
         print("observed:", r[1] if r else "property holds on this input")
+        return r is not None
+    if k == "c16-neutral":
+        r = c16_neutral_oracle(H.cfg_unjson(w["config"]), H.hist_unjson(w["history"]), max_positions=50)
+        print("expected: deleting a call that was rejected with an error changes nothing that is returned later")
+        print("observed:", r[2] if r else "property holds on this input")
         return r is not None
     if k == "c16-det":
         cfg, hist = H.cfg_unjson(w["config"]), H.hist_unjson(w["history"])
